@@ -77,7 +77,8 @@ def run_hist(sync, history, seed=0):
                     sent_notifies.append(f.body)
                     if not grp.secure_timer.timer_authenticated and sync != "none" and len(sent_notifies) == 1:
                         v = 777_000                       # the time keeper's timer
-                        replies = {"once": [False], "twice": [False, False], "forged": [True], "forged+once": [True, False]}[sync]
+                        replies = {"once": [False], "twice": [False, False], "forged": [True], "forged+once": [True, False],
+                                   "once+stale": [False], "once+fresh": [False]}[sync]
                         for k_, bad in enumerate(replies):   # bad: a forged reply echoing our serial number and tag (both visible on the wire)
                             vv = 360_000_000 if bad else v
                             raw = notify_raw(vv, XKNX_SERIAL_NUMBER, f.body.message_tag, bad)
@@ -85,6 +86,14 @@ def run_hist(sync, history, seed=0):
                             def go(raw=raw, vv=vv, bad=bad):
                                 deliver(raw)
                                 ev.append({"ev": "rx_notify", "v": vv, "macok": 0 if bad else 1, "sync": 1, "t": now(), "tv": grp.secure_timer.current_timer_value()})
+                                if "+" in sync and not bad and sync != "forged+once":
+                                    # the next datagram of the same loop iteration is a wrapper: an old one of the group (a replay), or a current
+                                    # one; the task waiting for the reply has not run yet
+                                    before = len(got)
+                                    peer.value = vv - 377_000 if sync == "once+stale" else vv + 1
+                                    deliver(peer.encrypt_frame(KNXIPFrame.init_from_body(k.RoutingIndication(raw_cemi=bytes(11)))).to_knx())
+                                    ev.append({"ev": "rx_wrapped", "v": peer.value, "macok": 1, "up": len(got) - before, "t": now(),
+                                               "tv": grp.secure_timer.current_timer_value()})
 
                             loop.inject(go)
                 elif isinstance(f.body, k.SecureWrapper):
@@ -140,7 +149,7 @@ def run_hist(sync, history, seed=0):
 def plans(ck):
     rnd = random.Random(ck.seed)
     out = []
-    for sync in ("none", "once", "twice", "forged", "forged+once"):
+    for sync in ("none", "once", "twice", "forged", "forged+once", "once+stale", "once+fresh"):
         for p in PLAIN:
             out.append((sync, [(10, "plain", p)]))
         for off in OFFS:
@@ -153,7 +162,7 @@ def plans(ck):
             kind = rnd.choices(["plain", "notify", "wrapped", "send"], weights=[1, 3, 4, 2])[0]
             args = rnd.choice(PLAIN) if kind == "plain" else (rnd.choice(OFFS + (rnd.randrange(-3000, 3000),)), rnd.random() < 0.25) if kind != "send" else None
             h.append((rnd.choice([0, 0, 1, 20, 150, 1200, 11000]), kind, args))
-        out.append((rnd.choice(["none", "once", "once", "twice", "forged", "forged+once"]), h))
+        out.append((rnd.choice(["none", "once", "once", "twice", "forged", "forged+once", "once+stale", "once+fresh"]), h))
     return out
 
 
